@@ -28,8 +28,21 @@ lost (witness) and the frame CAN be dropped without any handler (witness), and l
 without connection loss happens ONLY to such late-counted handlers (`C08_lost_reply_only_late`).
 For the same reason "ctxCount = 0 at closeRet" (DESIGN §5) is false as an unconditional statement
 (`C08_close_waits_ctx_witness`); `C08_close_waits` states what the two counters are exactly.
+
+Liveness (section "Close returns"): events are external (`Ev.internal e = false`: a CALL frame arrives,
+the peer answers, the connection is lost, the user issues a call / a push / calls `Close()`, a handler
+body returns) or internal (everything the library does by itself). `mu` is a natural-number measure
+every internal step decreases; `Quiescent s` = no internal step is enabled; `EnvDone s` = the
+environment owes nothing `Close()` could be waiting for (no handler body still running; every written,
+unbound call answered by the peer, or the connection lost).
+
+The cancel loop (section "the cancel loop's order"): `callCmdMap.Range` is a Go map iteration; the model
+lets it yield ANY remaining entry next (`rDPick`), the driver explores all of them.
 -/
 import Teleport.Lemmas.GracefulC
+import Teleport.Lemmas.GracefulQ4
+import Teleport.Lemmas.GracefulOrd
+import Teleport.Drv.C08
 import Teleport.Lemmas.SrcFlow
 import Teleport.Gen.Transitions
 namespace Teleport
@@ -264,7 +277,318 @@ example : ∃ s, Reach St.init s ∧ s.lost = false ∧ s.closer = .ret ∧
     property): written, connection lost, the reader cancels it. -/
 example : ∃ s, Reach St.init s ∧ s.lost = true ∧ ∃ c ∈ s.cs, c.chk = true ∧ c.pc = .done .cancelled := by
   exact ⟨_, run_reach' [.rTop, .cSeq, .cIssue 0, .cCheck 0, .cWrite 0, .envLost, .rReadErr, .rCheck,
-    .rDLoad, .rDGo, .rDWait, .rDCancel 0] St.init (by decide), by decide⟩
+    .rDLoad, .rDGo, .rDWait, .rDSnap, .rDPick 0, .rDVisit] St.init (by decide), by decide⟩
+
+/-! ## Close returns (liveness) -/
+
+/-- **The wait counters are exact.** In every reachable state the handler-context wait group counts
+    exactly the handler goroutines that have not yet run `putContext` (`Done()`), and the call wait
+    group exactly the calls between `Add(1)` and `done()`/`cancel()`. So a wait returns as soon as — and
+    only when — nothing it counts is outstanding. -/
+theorem C08_wait_counters_exact (s : St) (r : Reach St.init s) :
+    s.ctx = s.hs.countP H.holds ∧ s.calls = s.cs.countP C.isOpen :=
+  ⟨(sinv_reach r).ctx_eq, (sinv_reach r).calls_eq⟩
+
+/-- Every internal step — any step that is not a new choice of the environment — strictly decreases
+    the natural-number measure `mu` (no reachability assumption needed). -/
+theorem C08_measure (s t : St) (e : Ev) (hi : e.internal = true) (hs : step s e = some t) : mu t < mu s :=
+  mu_step hi hs
+
+/-- Every run of internal steps is finite: from any state `s` a run of internal steps has at most
+    `mu s` steps (it ends in a state with no internal step enabled, or is extended by the environment). -/
+theorem C08_internal_runs_finite (s t : St) (es : List Ev) (hint : ∀ e ∈ es, e.internal = true)
+    (hrun : run s es = some t) : es.length + mu t ≤ mu s :=
+  run_internal_bound es hint hrun
+
+/-- **Close returns.** For every interleaving of any number of handlers, callers, the reader, the
+    disconnect path (cancel loop in any order) and the closer, with the connection intact or lost: in
+    every reachable state in which no internal step is enabled, `Close()` has been called, no handler
+    body is still running and every written call has been answered by the peer or the connection is
+    lost — `Close()` HAS RETURNED; the session is closed (status ActiveClosed / PassiveClosed, socket
+    closed, the reader has left its loop and `readDisconnected`); both wait-group counters are zero;
+    every handler goroutine has finished, the reply of every CALL handler was written or refused for a
+    reason the property allows (the connection was lost, or the handler was counted only after the
+    closer's context wait had returned — the `read.add` window — and such a handler was not entered
+    before closeStart); every call has completed: with the peer's reply unless the connection was lost,
+    and refused without a frame exactly when it never passed `write`'s status test (issued after
+    closeStart). The closer is never parked at a wait whose counter can no longer reach zero. -/
+theorem C08_close_returns (s : St) (r : Reach St.init s) (hq : Quiescent s) (hc : s.closer ≠ .idle)
+    (he : EnvDone s) :
+    s.closeReturned = true ∧ (s.status = .closed ∨ s.status = .pclosed) ∧ s.sock = true ∧ s.reader = .rexit ∧
+    s.ctx = 0 ∧ s.calls = 0 ∧
+    (∀ h ∈ s.hs, h.pc = .fin ∧
+      (h.kind = .call → h.res = .ok ∨ (h.res = .lost ∧ (s.lost = true ∨ (h.late = true ∧ h.ebc = false))))) ∧
+    (∀ c ∈ s.cs, ∃ res, c.pc = .done res ∧ (c.chk = true → res = .reply ∨ s.lost = true) ∧
+      (c.chk = false → res = .refused)) := by
+  have hS := sinv_reach r
+  have hI := qinv_reach r
+  obtain ⟨h1, h2, h3, h4, h5, h6, h7, h8⟩ := close_returns hS hI hq hc he
+  refine ⟨h1, h2, h3, h4, h5, h6, ?_, ?_⟩
+  · intro h hm
+    refine ⟨h7 h hm, ?_⟩
+    intro hk
+    have hn := (hS.hres h hm hk).2.2.1 (h7 h hm)
+    cases hr : h.res with
+    | none => exact absurd hr hn
+    | ok => exact Or.inl rfl
+    | lost =>
+      right
+      refine ⟨rfl, ?_⟩
+      cases hl : s.lost with
+      | true => exact Or.inl rfl
+      | false => exact Or.inr (C08_lost_reply_only_late s r hl h hm hk hr)
+  · intro c hm
+    obtain ⟨res, hres⟩ := h8 c hm
+    refine ⟨res, hres, ?_, ?_⟩
+    · intro hk
+      exact (C08_issued_calls s r c hm hk).1 res hres
+    · intro hk
+      have hco := (hI.qc.copen c hm).2.2
+      cases res with
+      | refused => rfl
+      | reply => have := hco (Or.inl hres); rw [hk] at this; cases this
+      | cancelled => have := hco (Or.inr (Or.inl hres)); rw [hk] at this; cases this
+      | wfail => have := hco (Or.inr (Or.inr hres)); rw [hk] at this; cases this
+
+/-- **A running handler is the only thing that can keep Close from returning.** Reachable, no
+    internal step enabled, `Close()` called and NOT returned: then a handler body of this side is still
+    running, or a call this side wrote is still unanswered on an intact connection (the peer's handler
+    is still running) — nothing else; in particular never a wait for something that can no longer
+    happen. -/
+theorem C08_close_waits_only_for_env (s : St) (r : Reach St.init s) (hq : Quiescent s) (hc : s.closer ≠ .idle)
+    (hnr : s.closeReturned = false) :
+    (∃ h ∈ s.hs, h.pc = .entered) ∨ (∃ c ∈ s.cs, c.pc = .written ∧ c.replied = false ∧ s.lost = false) :=
+  close_waits_only_for_env (sinv_reach r) (qinv_reach r) hq hc hnr
+
+/-- "Once the running handlers have returned and the issued calls have been answered (or the
+    connection is lost), Close returns without any further external event": from a reachable state in
+    which `Close()` has been called, every run of internal steps only has at most `mu s` steps, and when
+    it reaches a state `t` it cannot be extended from (which every maximal run does, by the bound) and in
+    which the environment owes nothing, `Close()` has returned in `t` and the session is closed, all
+    handlers finished, all calls completed. -/
+theorem C08_close_return_follows (s t : St) (r : Reach St.init s) (es : List Ev)
+    (hint : ∀ e ∈ es, e.internal = true) (hrun : run s es = some t) (hc : s.closer ≠ .idle)
+    (hq : Quiescent t) (he : EnvDone t) :
+    es.length ≤ mu s ∧ t.closeReturned = true ∧ (t.status = .closed ∨ t.status = .pclosed) ∧ t.sock = true ∧
+    (∀ h ∈ t.hs, h.pc = .fin) ∧ (∀ c ∈ t.cs, ∃ res, c.pc = .done res) := by
+  have hb := run_internal_bound es hint hrun
+  have rt : Reach St.init t := reach_trans r (run_reach es hrun)
+  have h := C08_close_returns t rt hq (run_closer_called es hrun hc) he
+  refine ⟨by omega, h.1, h.2.1, h.2.2.1, fun x hx => (h.2.2.2.2.2.2.1 x hx).1, ?_⟩
+  intro c hm
+  obtain ⟨res, hres, _⟩ := h.2.2.2.2.2.2.2 c hm
+  exact ⟨res, hres⟩
+
+/-- the end state of `exRun` after the reader has seen the closed status and left: the call answered,
+    everything finished, `Close()` returned. -/
+def exEnd : St :=
+  { status := .closed, ctx := 0, calls := 0, sock := true, lost := false, inq := [], closer := .ret,
+    reader := .rexit, hs := [⟨.call, 7, .fin, true, false, .ok⟩], cs := [] }
+
+/-- a state in which `Close()` legitimately still waits: handler 7 is in its body (entered before
+    closeStart), the closer is parked in the context wait. -/
+def waitingRun : List Ev := [.rTop, .envCall 7, .rRead, .rCheck, .rAdd, .rTop, .hEnter 0, .xStart, .xHubdel]
+
+def waitingSt : St :=
+  { status := .closing, ctx := 1, calls := 0, sock := false, lost := false, inq := [], closer := .hubdel,
+    reader := .blocked, hs := [⟨.call, 7, .entered, true, false, .none⟩], cs := [] }
+
+/-- the same for a call of this side: written before closeStart, the peer has not answered, the
+    connection is intact; the closer is parked in the call wait. -/
+def waitingCallRun : List Ev := [.rTop, .cSeq, .cIssue 0, .cCheck 0, .cWrite 0, .xStart, .xHubdel, .xCtxWait]
+
+def waitingCallSt : St :=
+  { status := .closing, ctx := 0, calls := 1, sock := false, lost := false, inq := [], closer := .ctxw,
+    reader := .blocked, hs := [], cs := [⟨.written, true, false, false, false⟩] }
+
+/-- non-vacuity of `C08_close_returns`: the end of `exRun` followed by the reader's last steps (it sees
+    the closed status and leaves) is reachable, quiescent, `Close()` was called, the environment owes
+    nothing — and a handler entered before closeStart is among the finished ones. -/
+example : ∃ s, Reach St.init s ∧ Quiescent s ∧ s.closer ≠ .idle ∧ EnvDone s ∧ s.hs ≠ [] := by
+  have hrun : run St.init (exRun ++ [.rTop, .rDLoad, .rDGo]) = some exEnd := by decide
+  refine ⟨_, run_reach _ hrun, ?_, by decide, ⟨by decide, by decide⟩, by decide⟩
+  intro e he
+  cases e with
+  | hEnter i => rcases i with _ | i <;> simp [step, exEnd]
+  | hBody i => simp [Ev.internal] at he
+  | hCheck i => rcases i with _ | i <;> simp [step, exEnd]
+  | hWrite i => rcases i with _ | i <;> simp [step, exEnd]
+  | hReplyDone i => rcases i with _ | i <;> simp [step, exEnd]
+  | hFin i => rcases i with _ | i <;> simp [step, exEnd]
+  | cIssue j => simp [step, exEnd]
+  | cCheck j => simp [step, exEnd]
+  | cRefuse j => simp [step, exEnd]
+  | cWrite j => simp [step, exEnd]
+  | envCall _ => simp [Ev.internal] at he
+  | envReply _ => simp [Ev.internal] at he
+  | envLost => simp [Ev.internal] at he
+  | cSeq => simp [Ev.internal] at he
+  | pushStart => simp [Ev.internal] at he
+  | xStart => simp [Ev.internal] at he
+  | rDPick j => simp [step, exEnd]
+  | _ => simp [step, exEnd]
+
+/-- non-vacuity of `C08_close_waits_only_for_env`, first disjunct: `Close()` legitimately still waits
+    for a running handler — reachable, quiescent, `Close()` called and not returned. -/
+example : Reach St.init waitingSt ∧ Quiescent waitingSt ∧ waitingSt.closer ≠ .idle ∧
+    waitingSt.closeReturned = false ∧ ∃ h ∈ waitingSt.hs, h.pc = .entered ∧ h.ebc = true := by
+  have hrun : run St.init waitingRun = some waitingSt := by decide
+  refine ⟨run_reach _ hrun, ?_, by decide, by decide, by decide⟩
+  intro e he
+  cases e with
+  | hEnter i => rcases i with _ | i <;> simp [step, waitingSt]
+  | hBody i => simp [Ev.internal] at he
+  | hCheck i => rcases i with _ | i <;> simp [step, waitingSt]
+  | hWrite i => rcases i with _ | i <;> simp [step, waitingSt]
+  | hReplyDone i => rcases i with _ | i <;> simp [step, waitingSt]
+  | hFin i => rcases i with _ | i <;> simp [step, waitingSt]
+  | cIssue j => simp [step, waitingSt]
+  | cCheck j => simp [step, waitingSt]
+  | cRefuse j => simp [step, waitingSt]
+  | cWrite j => simp [step, waitingSt]
+  | envCall _ => simp [Ev.internal] at he
+  | envReply _ => simp [Ev.internal] at he
+  | envLost => simp [Ev.internal] at he
+  | cSeq => simp [Ev.internal] at he
+  | pushStart => simp [Ev.internal] at he
+  | xStart => simp [Ev.internal] at he
+  | rDPick j => simp [step, waitingSt]
+  | _ => simp [step, waitingSt]
+
+/-- Second disjunct, as a named witness because it bounds what "Close returns" can mean: the
+    statement "Close() has returned in every quiescent state in which Close() was called and no handler
+    body of THIS side is running" is false — `Close()` waits in the call wait for the peer's answer to a
+    call written before closeStart, on an intact connection (the property: such a call completes "with
+    the peer's reply if the peer sends one"). The peer's handler is the handler that is still running;
+    without a context deadline there is no other bound. The real code does the same (gate schedule
+    `1.o1,1.oa1,1.ob1,1.oc1,1.cl,1.cc,1.cc,1.cc`: closer parked after close.ctxwait, corpus/C08). -/
+theorem C08_close_waits_for_peer_reply_witness :
+    Reach St.init waitingCallSt ∧ Quiescent waitingCallSt ∧ waitingCallSt.closer ≠ .idle ∧
+    (∀ h ∈ waitingCallSt.hs, h.pc ≠ .entered) ∧ waitingCallSt.lost = false ∧
+    waitingCallSt.closeReturned = false ∧
+    ∃ c ∈ waitingCallSt.cs, c.pc = .written ∧ c.replied = false := by
+  have hrun : run St.init waitingCallRun = some waitingCallSt := by decide
+  refine ⟨run_reach _ hrun, ?_, by decide, by decide, by decide, by decide, by decide⟩
+  intro e he
+  cases e with
+  | hEnter i => simp [step, waitingCallSt]
+  | hBody i => simp [Ev.internal] at he
+  | hCheck i => simp [step, waitingCallSt]
+  | hWrite i => simp [step, waitingCallSt]
+  | hReplyDone i => simp [step, waitingCallSt]
+  | hFin i => simp [step, waitingCallSt]
+  | cIssue j => rcases j with _ | j <;> simp [step, waitingCallSt]
+  | cCheck j => rcases j with _ | j <;> simp [step, waitingCallSt]
+  | cRefuse j => rcases j with _ | j <;> simp [step, waitingCallSt]
+  | cWrite j => rcases j with _ | j <;> simp [step, waitingCallSt]
+  | envCall _ => simp [Ev.internal] at he
+  | envReply _ => simp [Ev.internal] at he
+  | envLost => simp [Ev.internal] at he
+  | cSeq => simp [Ev.internal] at he
+  | pushStart => simp [Ev.internal] at he
+  | xStart => simp [Ev.internal] at he
+  | rDPick j => simp [step, waitingCallSt]
+  | _ => simp [step, waitingCallSt]
+
+/-- non-vacuity of `C08_close_return_follows` / `C08_measure`: from `waitingSt` after the handler body
+    has returned (one external event), 8 internal steps and nothing else lead to a state in which
+    `Close()` has returned; the measure goes from 19 to 11. -/
+example : ∃ s t, Reach St.init s ∧ s.closer ≠ .idle ∧
+    run s [.hCheck 0, .hWrite 0, .hFin 0, .xCtxWait, .xCallWait, .xStClosed, .xSock, .xRet] = some t ∧
+    (∀ e ∈ [Ev.hCheck 0, .hWrite 0, .hFin 0, .xCtxWait, .xCallWait, .xStClosed, .xSock, .xRet], e.internal = true) ∧
+    t.closeReturned = true ∧ mu s = 19 ∧ mu t = 11 := by
+  have hrun : run St.init (waitingRun ++ [.hBody 0]) =
+      some { waitingSt with hs := [⟨.call, 7, .hdone, true, false, .none⟩] } := by decide
+  refine ⟨_, { exEnd with reader := .blocked }, run_reach _ hrun, by decide, by decide, by decide, by decide,
+    by decide, by decide⟩
+
+/-! ## the cancel loop's order (`callCmdMap.Range` in `readDisconnected`) -/
+
+/-- **Any remaining entry can be next.** Inside `Range` with the entries `todo` still to come, the
+    model lets the iteration yield entry `j` next iff `j` is one of them — no order is preferred. -/
+theorem C08_cancel_any_order (s : St) (a : Bool) (todo : List Nat) (hr : s.reader = .dloop a todo) (j : Nat) :
+    (step s (.rDPick j)).isSome = true ↔ j ∈ todo := by
+  simp only [step, hr]
+  by_cases hj : j ∈ todo <;> simp [hj]
+
+/-- **Every permutation of the entries is a possible visiting order, and the order does not matter
+    unless the loop blocks.** From a state inside `Range` with the entries `todo` still to come, none of
+    whose calls has its mutex held (no caller parked inside `AsyncCall`): for EVERY permutation `ord` of
+    `todo` the loop can visit the entries in the order `ord`, and it always ends in the same state
+    `loopEnd s a todo` (every written call among them cancelled, the counter lowered accordingly). So
+    the observation of such a loop is invariant under the order. -/
+theorem C08_cancel_order_invariant (s : St) (a : Bool) (todo ord : List Nat) (hr : s.reader = .dloop a todo)
+    (hp : ord.Perm todo) (hfree : ∀ j ∈ todo, ∀ c, s.cs[j]? = some c → c.muHeld = false) :
+    run s (loopEvs ord) = some (loopEnd s a todo) := by
+  rw [run_loop_perm ord todo s a hr hp hfree, loopEnd_perm s a hp]
+
+/-- **Only permutations.** For any run (any events of any goroutines in between) during which the
+    reader stays inside one `Range` — `rem` still to come at the start, `rem'` at the end — the entries
+    the loop yielded, followed by `rem'`, are a permutation of `rem`. In particular a loop that ran from
+    its snapshot to the end (`rem' = []`) visited exactly a permutation of the snapshot: the
+    alternatives the order can produce are exactly the permutations of the set to cancel. -/
+theorem C08_cancel_only_permutations (s t : St) (es : List Ev) (rem rem' : List Nat) (hrun : run s es = some t)
+    (h0 : s.reader.remaining = some rem) (h1 : t.reader.remaining = some rem') :
+    (picks es ++ rem').Perm rem :=
+  picks_perm es hrun h0 h1
+
+/-- the snapshot `Range` starts from is exactly the set of calls in the pending table. -/
+theorem C08_cancel_snapshot (s t : St) (hs : step s .rDSnap = some t) :
+    ∃ a, s.reader = .dcancel a ∧ t.reader = .dloop a (openIdx s.cs) ∧
+      ∀ j c, s.cs[j]? = some c → c.isOpen = true → j ∈ openIdx s.cs := by
+  simp only [step] at hs
+  split at hs
+  · rename_i a hr
+    cases hs
+    exact ⟨a, hr, rfl, fun j c hg ho => mem_openIdx hg ho⟩
+  · cases hs
+
+/-- **The driver explores every order (tie B).** Inside `Range` the reader steps the model driver
+    (`Drv/C08.readerEvs`, from which `settle` builds all alternatives of the printed line) tries are
+    exactly the reader steps the model enables: one `rDPick j` per remaining entry, `rDCancelEnd` when
+    none is left. -/
+theorem C08_driver_explores_every_order (s : St) (a : Bool) (todo : List Nat) (hr : s.reader = .dloop a todo)
+    (e : Ev) (he : e.isReader = true) : (step s e).isSome = true ↔ e ∈ Drv.D08.readerEvs s := by
+  cases todo with
+  | nil => cases e <;> simp [step, hr, Drv.D08.readerEvs, Ev.isReader] at he ⊢
+  | cons k r => cases e <;> simp [step, hr, Drv.D08.readerEvs, Ev.isReader] at he ⊢
+
+/-- calls 0 and 1 written, the connection lost, the reader inside `Range` over both. -/
+def twoWritten : List Ev :=
+  [.rTop, .cSeq, .cIssue 0, .cCheck 0, .cWrite 0, .cSeq, .cIssue 1, .cCheck 1, .cWrite 1, .envLost, .rReadErr, .rCheck,
+   .rDLoad, .rDGo, .rDWait, .rDSnap]
+
+/-- non-vacuity of `C08_cancel_order_invariant` / `C08_cancel_only_permutations`: a reachable state
+    inside `Range` over two written calls, no mutex held; both orders run and give the same state, in
+    which both calls are cancelled. -/
+example : ∃ s, Reach St.init s ∧ s.reader = .dloop false [0, 1] ∧
+    (∀ j ∈ [0, 1], ∀ c, s.cs[j]? = some c → c.muHeld = false) ∧
+    run s (loopEvs [0, 1]) = run s (loopEvs [1, 0]) ∧
+    (∃ t, run s (loopEvs [1, 0]) = some t ∧ t.cs.map (·.pc) = [.done .cancelled, .done .cancelled] ∧ t.calls = 0) := by
+  have h : run St.init twoWritten = some ((run St.init twoWritten).getD St.init) := by decide
+  refine ⟨_, run_reach _ h, by decide, by decide, by decide,
+    (run ((run St.init twoWritten).getD St.init) (loopEvs [1, 0])).getD St.init, by decide, by decide, by decide⟩
+
+/-- call 0 written, call 1 parked at `write.check` (its caller holds the mutex), the connection lost, the
+    reader inside `Range` over both. -/
+def writtenAndParked : List Ev :=
+  [.rTop, .cSeq, .cIssue 0, .cCheck 0, .cWrite 0, .cSeq, .cIssue 1, .cCheck 1, .envLost, .rReadErr, .rCheck,
+   .rDLoad, .rDGo, .rDWait, .rDSnap]
+
+/-- **When the loop blocks, the order is observable** (this is what the driver's alternatives are for):
+    from the same reachable state, the order 0,1 cancels call 0 and then blocks at call 1; the order 1,0
+    blocks at call 1 with call 0 still pending. Both are stuck until the caller of call 1 moves; a
+    `Close()` that returns at once in between (the status is already PassiveClosing) sees 1 resp. 2
+    pending calls. -/
+theorem C08_cancel_order_observable_when_blocked_witness :
+    ∃ s t1 t2, Reach St.init s ∧ run s [.rDPick 0, .rDVisit, .rDPick 1] = some t1 ∧ run s [.rDPick 1] = some t2 ∧
+      step t1 .rDVisit = none ∧ step t2 .rDVisit = none ∧ t1.calls = 1 ∧ t2.calls = 2 ∧
+      (step t1 .xStart).map (·.closer) = some .noop ∧ (step t2 .xStart).map (·.closer) = some .noop := by
+  have h : run St.init writtenAndParked = some ((run St.init writtenAndParked).getD St.init) := by decide
+  refine ⟨(run St.init writtenAndParked).getD St.init,
+    (run ((run St.init writtenAndParked).getD St.init) [.rDPick 0, .rDVisit, .rDPick 1]).getD St.init,
+    (run ((run St.init writtenAndParked).getD St.init) [.rDPick 1]).getD St.init,
+    run_reach _ h, by decide, by decide, by decide, by decide, by decide, by decide, by decide, by decide⟩
 
 /-! ## Peer.Close -/
 
@@ -388,7 +712,7 @@ def wgSites : List (String × String) :=
     an unexported helper counts for the watched functions that reach it): context group `Add` in
     `startReadAndHandle` (`rAdd`) and in `Push` through `getContext` (`pushStart`), `Done` through
     `putContext` on the same two paths (`hFin`); call group `Add` in `AsyncCall` (`cIssue`), `Done` in
-    `callCmd.done` / `cancel` (`hReplyDone`, `cRefuse`, `cWrite` failure, `rDCancel`); waited for only
+    `callCmd.done` / `cancel` (`hReplyDone`, `cRefuse`, `cWrite` failure, `rDVisit`); waited for only
     on the close path (both groups) and on the disconnect path (contexts). Removing a wait, moving it behind the store or the socket close, or counting
     somewhere else changes a regenerated fact and this theorem no longer checks. -/
 theorem C08_close_waits_sites :
